@@ -28,7 +28,7 @@ PROFILE = {
 class C12:
     prop = "C12"
     level = "exploration"
-    budgets = {"quick": 800, "thorough": 40000}
+    budgets = {"quick": 1200, "thorough": 40000}
     warm_refinement = True
 
     def generate(self, rnd, index, tier):
